@@ -519,7 +519,7 @@ func runC03(c *Ctx) {
 				if !isSuccessReturn(r) {
 					continue
 				}
-				if stripConv(r.Results[0]) != stripConv(args[1]) || stripConv(r.Results[1]) != stripConv(args[2]) {
+				if stripConv(retResults(r)[0]) != stripConv(args[1]) || stripConv(retResults(r)[1]) != stripConv(args[2]) {
 					same = false
 				}
 			}
@@ -561,7 +561,7 @@ func runC03(c *Ctx) {
 					}
 					// wrapper if it returns a value of the callee's non-error results
 					for _, r := range returnsOf(fn) {
-						for _, res := range r.Results {
+						for _, res := range retResults(r) {
 							if ex, ok := stripConv(res).(*ssa.Extract); ok && ex.Tuple == ssa.Value(call) {
 								if !openers[fn] {
 									openers[fn] = true
@@ -609,7 +609,7 @@ func runC03(c *Ctx) {
 							if ret, isRet := use.(*ssa.Return); isRet {
 								// returning results together with the error is fine if the error is returned too
 								idx := errResultIndex(fn.Signature)
-								if idx >= 0 && idx < len(ret.Results) && ret.Results[idx] == ev {
+								if idx >= 0 && idx < len(retResults(ret)) && retResults(ret)[idx] == ev {
 									continue
 								}
 							}
